@@ -71,7 +71,11 @@ impl SizeManifest {
         }
 
         // Parse entries
-        let mut entries = Vec::with_capacity(header.entry_count() as usize);
+        // The count comes from the header: reserve no more than the remaining
+        // input can hold
+        let remaining = data.len().saturating_sub(cursor.position() as usize);
+        let max_entries = remaining / SizeEntry::serialized_size(&header).max(1);
+        let mut entries = Vec::with_capacity((header.entry_count() as usize).min(max_entries));
         for _ in 0..header.entry_count() {
             let entry = SizeEntry::read_options(&mut cursor, binrw::Endian::Big, &header)
                 .map_err(SizeError::from)?;
